@@ -62,6 +62,62 @@ def available(lib: str, dt: str) -> bool:
     return jnp is not None and dt in JAX_DT
 
 
+HOWS = {
+    "np": ["plain", "fortran", "strided", "readonly", "transposed", "broadcast", "nonzero", "masked", "memmap_like"],
+    "torch": ["plain", "noncontig", "expanded", "requires_grad", "parameter", "meta", "nonzero"],
+    "jax": ["plain", "jit", "nonzero"],
+}
+
+
+def mk_variant(lib: str, dt: str, shape, how: str):
+    """The same (shape, dtype) produced another way: memory layout, strides, flags, contents, subclass, device."""
+    shape = tuple(int(s) for s in shape)
+    base = mk_array(lib, dt, shape)
+    if how in ("plain", "jit") or dt == "other":
+        return base
+    if lib == "np":
+        if not shape and how in ("fortran", "strided", "transposed"):
+            return base   # numpy turns these into scalars / 1-d arrays for rank 0: not the same shape any more
+        if how == "fortran":
+            return np.asfortranarray(base)
+        if how == "strided":
+            big = np.zeros(tuple(2 * s for s in shape), dtype=base.dtype)
+            return big[tuple(slice(None, None, 2) for _ in shape)]
+        if how == "readonly":
+            base.setflags(write=False)
+            return base
+        if how == "transposed":
+            return np.zeros(shape[::-1], dtype=base.dtype).T
+        if how == "broadcast":
+            return np.broadcast_to(np.zeros((), dtype=base.dtype), shape)
+        if how == "nonzero":
+            return np.ones(shape, dtype=base.dtype)
+        if how == "masked":
+            return np.ma.MaskedArray(base)
+        if how == "memmap_like":
+            return base.view(type("ArrSub", (np.ndarray,), {}))
+    if lib == "torch":
+        if how == "noncontig":
+            return torch.zeros(shape[::-1], dtype=base.dtype).permute(*reversed(range(len(shape)))) if shape else base
+        if how == "expanded":
+            return torch.zeros((), dtype=base.dtype).expand(shape) if shape else base
+        if how == "requires_grad":
+            return base.requires_grad_() if base.dtype.is_floating_point else base
+        if how == "parameter":
+            return torch.nn.Parameter(base, requires_grad=False)
+        if how == "meta":
+            return torch.zeros(shape, dtype=base.dtype, device="meta")
+        if how == "nonzero":
+            return torch.ones(shape, dtype=base.dtype)
+    if lib == "jax" and how == "nonzero":
+        return jnp.ones(shape, dtype=base.dtype)
+    return base
+
+
+def _same_shape(x, shape) -> bool:
+    return tuple(int(t) for t in x.shape) == tuple(shape)
+
+
 def mk_array(lib: str, dt: str, shape):
     shape = tuple(int(s) for s in shape)
     if lib == "np":
@@ -295,6 +351,12 @@ class _Other:
 def value_obj(v: dict):
     k = v["k"]
     if k == "arr":
+        if v.get("how"):
+            x = mk_variant(v["lib"], v["dt"], v["shape"], v["how"])
+            plain = mk_array(v["lib"], v["dt"], v["shape"])
+            if not hasattr(x, "shape") or not _same_shape(x, plain.shape) or x.dtype != plain.dtype:
+                raise AssertionError(f"harness: variant {v['how']} of {v['lib']}:{v['dt']}{tuple(v['shape'])} is not the same shape/dtype")
+            return x
         return mk_array(v["lib"], v["dt"], v["shape"])
     if k == "none":
         return None
@@ -423,8 +485,21 @@ def run_fn_case(case: dict) -> dict:
     pos = [args[n] for n in case.get("positional", [])]
     kw = {k: v for k, v in args.items() if k not in case.get("positional", [])}
     out: dict
+    # top-level jax arguments marked how == "jit" are handed over as tracers: the whole checked call is traced
+    traced = [k for k, v in case["args"].items() if isinstance(v, dict) and v.get("k") == "arr" and v.get("lib") == "jax" and v.get("how") == "jit"
+              and k not in case.get("positional", [])]
     try:
-        got = target(*pos, **kw)
+        if traced and jax is not None:
+            box = []
+
+            def under_trace(*arrs):
+                box.append(target(*pos, **{**kw, **dict(zip(traced, arrs))}))
+                return 0
+
+            jax.make_jaxpr(under_trace)(*[kw[k] for k in traced])
+            got = box[0] if box else None
+        else:
+            got = target(*pos, **kw)
         out = {"v": "accept", "same_object": got is retbox[0]}
     except BodyError:
         out = {"v": "bodyraised"}
